@@ -219,6 +219,11 @@ func c02Run(x *core.Ctx) {
 				if j%8 == 2 {
 					doc = dgen.CyclicCollisionDoc(r, mg)
 				}
+				// overlapping selections AND ordinary faults (unknown fields, wrong arguments) in the same document: the
+				// merging rule compares nodes the other rules have already given up on
+				for k := r.Intn(3); k > 0; k-- {
+					dgen.Faults[r.Intn(len(dgen.Faults))].Do(dgen.NewFCtx(r, mg, doc))
+				}
 			default:
 				doc = gen.QueryDoc(r, &gen.QOpts{MaxDepth: 3, VarDirs: true, MaxDefs: 4, Hostile: j%8 == 3})
 			}
@@ -240,8 +245,28 @@ func c02Run(x *core.Ctx) {
 	// through them
 	if sd, err := parser.ParseSchema(&ast.Source{Name: "pets.graphql", Input: c08PetsSchema}); err == nil {
 		pmg := tsys.Merge(model.FromSchemaAST(sd).Items)
-		for j := 0; j < ns*2; j++ {
+		for j := 0; j < ns*6; j++ {
 			d := dgen.CyclicPetsScenarioDoc(r, pmg)
+			if j%2 == 1 {
+				// fields compared under exclusive parents, some of them unknown or otherwise wrong
+				d = dgen.PetsScenarioDoc(r, pmg)
+				if j%4 == 3 {
+					d = dgen.CollisionDoc(r, pmg)
+				}
+				for k := 1 + r.Intn(3); k > 0; k-- {
+					f := dgen.Faults[r.Intn(len(dgen.Faults))]
+					if k == 1 {
+						for _, cand := range dgen.Faults {
+							if cand.Name == "unknown-field" || cand.Name == "near-miss-field" {
+								if r.Bool() {
+									f = cand
+								}
+							}
+						}
+					}
+					f.Do(dgen.NewFCtx(r, pmg, d))
+				}
+			}
 			pc := core.NewCase("pair", "schema", c08PetsSchema, "doc", rn.RenderDoc(d))
 			x.Do(pc, func() { c02Check(x, pc) })
 		}
